@@ -278,7 +278,7 @@ def canon_nans(lay, P):
     return bytes(buf)
 
 
-def project_field(e, v, P, hp=None):
+def project_field(e, v, P, hp=None, canon=False):
     """[k, bytes, hpbytes] for attribute value v of layout entry e (candidate bytes from P)"""
     t = e["t"]
     kind = t[:1]
@@ -330,8 +330,9 @@ def project_field(e, v, P, hp=None):
         if isinstance(v, float) and math.isnan(v):
             # "not a number" is ONE value: which of its bit patterns stands in the payload is not the library's doing (converting a
             # signalling NaN between 32 and 64 bits quiets it in hardware) - every NaN pattern is projected to the canonical one
+            # (build direction only - canon: when parsing, the attribute NaN stands for whatever NaN pattern the payload holds)
             c = struct.unpack("<f" if n == 4 else "<d", cand)[0] if len(cand) == n else 0.0
-            return ["f", list(canon_nan(n)) if math.isnan(c) else [256], []]
+            return ["f", list(canon_nan(n) if canon else cand) if math.isnan(c) else [256], []]
         try:
             if e["sc"] == 1:
                 c = struct.unpack("<f" if n == 4 else "<d", cand)[0]
